@@ -285,5 +285,9 @@ def run_scenario(sc):
             lg = logging.getLogger("websocket")
             lg.handlers = [h for h in lg.handlers if h is not nullh]
             lg.setLevel(lvl0)
-    log({"ev": "end"})
+    if sc.get("from_model"):
+        # replayed behaviour of spec/RecvSim.tla: the observable history the model predicted travels with the trace
+        log({"ev": "end", "expect": sc["expect"], "whole": bool(sc["whole"])})
+    else:
+        log({"ev": "end"})
     return ev
